@@ -336,7 +336,7 @@ class Minimiser:
         for l in lines:
             if l.kind not in ('step', 'al', 'knob'):
                 continue
-            if l.kind == 'knob' and l.name in ('nfd',):
+            if l.kind == 'knob' and l.name in ('nfd', 'scenario'):
                 continue
             for k in range(len(l.args)):
                 self._shrink(lines, l.args, k)
@@ -656,6 +656,24 @@ def main():
             print('VIOLATION property=%s replay=%s' % (h['property'], a[1]))
             return 1
         return 0 if o['kind'] == 0 else 2
+    if cmd == 'witness':
+        # witness ENGINE PROP SEED OUTFILE [AFSTEP,K,P]: gate + minimise the violation of SEED and store it
+        engine, prop, seed, out = a[1], a[2], int(a[3]), a[4]
+        exe = build_engine(engine)
+        args = ['--prop', prop, '--seed', str(seed)]
+        if len(a) > 5:
+            args = ['--af', a[5]] + args
+        o, _, _ = run_json(exe, args)
+        if o is None or o['kind'] not in (1, 3, 4):
+            print('seed does not violate:', o)
+            return 2
+        path, st = handle_violation(exe, engine, prop, o, repo_tree_hash())
+        if st != 'ok':
+            return 2
+        os.makedirs(os.path.dirname(os.path.abspath(out)), exist_ok=True)
+        shutil.move(path, out)
+        print(open(out).read().split('# --- original')[0])
+        return 0
     if cmd == 'mutant':
         return mutant(a[1], a[2:])
     if cmd == 'exe':
